@@ -417,8 +417,10 @@ def nanvar(
     sum_sq = reduce(reduce_func_name="sum_square", **kwargs)
     sum = reduce(reduce_func_name="sum", **kwargs)
     d = n - ddof
-    if d == 0 or n == 0:
-        return _null_value_for_numpy_type(arr.dtype)
+    if d <= 0 or n == 0:
+        # too few values: NaN like NumPy (the null of an integer dtype is its minimum,
+        # which is not a variance and breaks nanstd)
+        return np.nan
     return (sum_sq - sum**2 / n) / d
 
 
